@@ -114,7 +114,7 @@ KeyOutcome(e, tT, tIT, tR, nn, pres, hh) ==
      ELSE IF ~lk.ok \/ lk.found # isPresent THEN Out("domain:spec-inconsistent", "plain")
      ELSE IF Has(e, "exp") /\ (e.exp.found # isPresent \/ (isPresent /\ e.exp.v # BitsToStr(lk.v.b))) THEN Out("domain:spec-inconsistent", "plain")
      ELSE IF e.panic # "" THEN Out("panic", "plain")
-     ELSE IF ~isPresent THEN (IF e.err # "" /\ e.proof = "" THEN Out("", "") ELSE Out("absent-key-proved", "plain"))
+     ELSE IF ~isPresent THEN (IF e.err # "" /\ e.proof = "" THEN Out("", "") ELSE Out("absent-key-proved", Cls("absent-key-proved")))
      ELSE IF e.err # "" THEN Out("present-key-error", Cls("present-key-error"))
      ELSE
      LET V  == FromJson(e.val.cells)
